@@ -1689,6 +1689,13 @@ func unmarshalList(info TypeInfo, data []byte, value interface{}) error {
 			return err
 		}
 		data = data[p:]
+		if n < 0 {
+			return unmarshalErrorf("negative list size %d", n)
+		}
+		// every element is preceded by its size, so the data bounds the element count
+		if n > len(data)/p {
+			return unmarshalErrorf("unmarshal list: unexpected eof")
+		}
 		if k == reflect.Array {
 			if rv.Len() != n {
 				return unmarshalErrorf("unmarshal list: array with wrong size")
@@ -1809,8 +1816,12 @@ func unmarshalMap(info TypeInfo, data []byte, value interface{}) error {
 	if n < 0 {
 		return unmarshalErrorf("negative map size %d", n)
 	}
-	rv.Set(reflect.MakeMapWithSize(t, n))
 	data = data[p:]
+	// every key and every value is preceded by its size, so the data bounds the entry count
+	if n > len(data)/(2*p) {
+		return unmarshalErrorf("unmarshal map: unexpected eof")
+	}
+	rv.Set(reflect.MakeMapWithSize(t, n))
 	for i := 0; i < n; i++ {
 		m, p, err := readCollectionSize(mapInfo, data)
 		if err != nil {
